@@ -574,7 +574,10 @@ FLOW_ACC = {
     "exp:forms": lambda o, r: o.exp(scale=r.choice([None, 1, 1.0, 0.5, -1]), steps=r.choice([0, 1, 3]), padding=r.choice(["border", "zeros"])),
     "curl": lambda o, r: o.curl(),
     "curl:forms": lambda o, r: o.curl(mode=r.choice([None, "central", "forward", "bspline"]), sigma=r.choice([None, 0.7]), spacing=r.choice([None, 1.0]), stride=r.choice([None, 1])),
-    "warp_image": lambda o, r: o.warp_image(Image(gen.randn(3, (1,) + tuple(_img_grid(o).shape)), _img_grid(o)) if isinstance(o, FlowField) else ImageBatch(gen.randn(3, (o.shape[0], 1) + tuple(_img_grid(o).shape)), _img_grid(o))),
+    # the image to be warped is an argument (tracked through the plain tensor whose storage the typed image uses)
+    "warp_image": lambda o, r: o.warp_image(Image(r.tensor("image", gen.randn(3, (1,) + tuple(_img_grid(o).shape))), _img_grid(o)) if isinstance(o, FlowField) else ImageBatch(r.tensor("image", gen.randn(3, (o.shape[0], 1) + tuple(_img_grid(o).shape))), _img_grid(o))),
+    "warp_image:forms": lambda o, r: o.warp_image(Image(r.tensor("image", gen.randn(5, (2,) + tuple(_img_grid(o).shape))), _img_grid(o)) if isinstance(o, FlowField) else ImageBatch(r.tensor("image", gen.randn(5, (o.shape[0], 2) + tuple(_img_grid(o).shape))), _img_grid(o)),
+                                                  sampling=r.choice(["linear", "nearest"]), padding=r.choice(["border", "zeros", 0.5])),
 }
 ACC["FlowField"] = dict(ACC["Image"], **FLOW_ACC)
 ACC["FlowFields"] = dict(ACC["ImageBatch"], **FLOW_ACC)
